@@ -84,7 +84,14 @@ def do_event(mesh, lay, op, with_nbrs=True, grade_consts=None):
                 ev["th2"] = list(op[3]["th2"])
                 ev["judge_marking"] = bool(op[3]["judge"])
             with AxisRecorder(lay) as rec:
-                ml.apply_op(mesh, lay, op[:3])
+                sc = op[3].get("scale", 1.0) if len(op) > 3 else 1.0
+                if sc != 1.0:
+                    # indicators scaled by a power of two: sums and comparisons stay exact, the marked set must not change
+                    import numpy as np
+                    ev["scale"] = sc
+                    ml.apply_op(mesh, lay, (op[0], (np.array(op[1], dtype=float) * sc).tolist(), op[2]))
+                else:
+                    ml.apply_op(mesh, lay, op[:3])
         else:
             ml.apply_op(mesh, lay, op)
     except RecursionError as ex:
